@@ -112,11 +112,13 @@ class _SvdSpy:
         self.cls = Decomposer
         self.orig = Decomposer._svd
         self.calls = []
+        self.inputs = []
         spy = self
 
         def _svd(this, X, dims, func, kwargs):
             out = spy.orig(this, X, dims, func, kwargs)
             spy.calls.append(tuple(np.array(o.values) for o in out))
+            spy.inputs.append(np.array(X.transpose(*dims).values))
             return out
 
         Decomposer._svd = _svd
@@ -189,6 +191,133 @@ def corr_eof_pipeline(seed, tier):
         R.cmp("explained_variance_ratio", close(unbits(ans["ratio"]), exp["ratio"]), small, unbits(ans["ratio"]).tolist(), exp["ratio"].tolist())
         R.cmp("transform", close(unbits(ans["transform"], (m, k)), exp["transform"], 1e-8), small, unbits(ans["transform"]).tolist()[:6], exp["transform"].ravel()[:6].tolist())
         R.cmp("inverse_transform", close(unbits(ans["inverse"], (m, p)), exp["inverse"], 1e-8), small, unbits(ans["inverse"]).tolist()[:6], exp["inverse"].ravel()[:6].tolist())
+    return R
+
+
+# ----------------------------------------------------------------------------------------------------- CPCCA core
+def corr_cpcca_core(seed, tier):
+    """CPCCA / MCA / CCA / RDA `_fit_algorithm`, `_transform_algorithm`, `_inverse_transform_algorithm` in the (PCA-reduced,
+    whitened) space against XM.crossCov + XM.cpccaFit + cpccaTransform1/cpccaInverse1: the model gets the stored 2-D inputs
+    (`data['input_data1/2']`) and the SVD factors the solver returned for the cross-covariance, and must reproduce the cross-
+    covariance handed to the solver, components, scores, singular values, squared covariance, norms, transform (plain and
+    normalised) and the inverse."""
+    R = Result("cpcca_core")
+    rng = np.random.default_rng(11000 + seed)
+    n_cases = {"quick": 10, "thorough": 80, "search": 40}[tier]
+    reqs, exps = [], []
+    for i in range(n_cases):
+        n, p, q = int(rng.integers(12, 30)), int(rng.integers(2, 6)), int(rng.integers(2, 6))
+        cls = ["CPCCA", "MCA", "CCA", "RDA"][i % 4]
+        use_pca = bool(i % 3 == 0)
+        A = rng.normal(size=(n, p)) * 10.0 ** rng.integers(-2, 3)
+        B = rng.normal(size=(n, q)) + A[:, :1] * rng.normal(size=(1, q))
+        X, Y = da2d(A, "time", "x"), da2d(B, "time", "y")
+        k = int(rng.integers(1, min(p, q) + 1))
+        cfg = dict(n_modes=k, use_pca=use_pca, n_pca_modes="all", solver="full", standardize=bool(i % 2))
+        if cls == "CPCCA":
+            cfg["alpha"] = [float(rng.choice([0.0, 0.5, 1.0])), float(rng.choice([0.0, 0.3, 1.0]))]
+        R.tally("class", cls)
+        R.tally("use_pca", use_pca)
+        R.tally("k_over_rank", "full" if k == min(p, q) else "truncated")
+        try:
+            with _SvdSpy() as spy, warnings.catch_warnings():
+                warnings.simplefilter("ignore")
+                model = getattr(xe.cross, cls)(**cfg)
+                model.fit(X, Y, "time")
+            U, s_, VT = spy.calls[-1]
+            Cin = spy.inputs[-1]
+            sn = model.sample_name
+            Xw = np.asarray(model.data["input_data1"].transpose(sn, model.feature_name[0]).values, dtype=float)
+            Yw = np.asarray(model.data["input_data2"].transpose(sn, model.feature_name[1]).values, dtype=float)
+            pw, qw = Xw.shape[1], Yw.shape[1]
+            r = s_.size
+            m = int(rng.integers(1, 5))
+            Xn = rng.normal(size=(m, pw)) * np.abs(Xw).max()
+            f1 = model.feature_name[0]
+            Xn_da = xr.DataArray(Xn, dims=[sn, f1], coords={sn: np.arange(100, 100 + m), f1: model.data["input_data1"].coords[f1]})
+            t0 = model._transform_algorithm(X=Xn_da, normalized=False)["X"].transpose(sn, "mode").values
+            t1 = model._transform_algorithm(X=Xn_da, normalized=True)["X"].transpose(sn, "mode").values
+            sc_da = model._transform_algorithm(X=Xn_da, normalized=False)["X"]
+            inv = model._inverse_transform_algorithm(X=sc_da)["X"].transpose(sn, f1).values
+            d = model.data
+            exp = {"crosscov": Cin, "comps1": d["components1"].transpose(f1, "mode").values,
+                   "comps2": d["components2"].transpose(model.feature_name[1], "mode").values,
+                   "scores1": d["scores1"].transpose(sn, "mode").values, "scores2": d["scores2"].transpose(sn, "mode").values,
+                   "svals": d["singular_values"].values, "sqcov": d["squared_covariance"].values,
+                   "norm1": d["norm1"].values, "norm2": d["norm2"].values, "transform1": t0, "transform1n": t1, "inverse1": inv}
+            req = {"fn": "cpcca", "n": n, "p": pw, "q": qw, "r": int(r), "k": k, "X": bits(Xw), "Y": bits(Yw), "Q1": bits(U[:, :r]),
+                   "s": bits(s_), "Q2": bits(VT[:r, :].T), "m": m, "Xn": bits(Xn)}
+            reqs.append(req)
+            exps.append((req, exp, (n, pw, qw, k, m)))
+        except Exception as e:  # noqa: BLE001
+            R.cmp("implementation-raises", False, {"cls": cls, "cfg": cfg}, None, exc_class(e) + ": " + str(e)[:300])
+    for (req, exp, (n, p, q, k, m)), ans in zip(exps, ask(reqs)):
+        small = {kk: req[kk] for kk in ("n", "p", "q", "r", "k", "m")}
+        small["seed"] = seed
+        if ans.get("status") != "ok":
+            R.cmp("status", False, small, ans, "ok")
+            continue
+        shapes = {"crosscov": (p, q), "comps1": (p, k), "comps2": (q, k), "scores1": (n, k), "scores2": (n, k), "svals": (k,), "sqcov": (k,),
+                  "norm1": (k,), "norm2": (k,), "transform1": (m, k), "transform1n": (m, k), "inverse1": (m, p)}
+        for key, shp in shapes.items():
+            got = unbits(ans[key], shp)
+            R.cmp(key, close(got, np.asarray(exp[key], dtype=float), 1e-8), small, got.ravel()[:6].tolist(), np.asarray(exp[key]).ravel()[:6].tolist())
+    return R
+
+
+# ----------------------------------------------------------------------------------------------------- EOF rotator
+def corr_rotator(seed, tier):
+    """EOFRotator.fit / transform / inverse_transform (Varimax power=1 and Promax power>1) against XM.rotFit / rotTransform /
+    rotInverse: the model gets the unrotated model's stored components, explained variances, scores, norms and the rotation
+    matrix the iteration converged to (for power>1 also numpy's inverse of it), and must reproduce rotated loadings order,
+    components, scores, explained variances, pseudo-norms, signs, the sorting permutation, transform of new data and the
+    reconstruction."""
+    R = Result("rotator")
+    rng = np.random.default_rng(12000 + seed)
+    reqs, exps = [], []
+    for i in range({"quick": 8, "thorough": 60, "search": 30}[tier]):
+        n, p = int(rng.integers(12, 30)), int(rng.integers(3, 7))
+        k = int(rng.integers(2, p + 1))
+        power = [1, 2, 1, 3][i % 4]
+        A = rng.normal(size=(n, p)) @ rng.normal(size=(p, p))
+        X = da2d(A, "time", "x")
+        R.tally("power", power)
+        R.tally("k_over_p", "full" if k == p else "truncated")
+        try:
+            with warnings.catch_warnings():
+                warnings.simplefilter("ignore")
+                eof = xe.single.EOF(n_modes=p, solver="full").fit(X, "time")
+                rot = xe.single.EOFRotator(n_modes=k, power=power, max_iter=5000, rtol=1e-10).fit(eof)
+        except RuntimeError:
+            R.tally("skipped", "rotation did not converge")
+            continue
+        sn, fn = eof.sample_name, eof.feature_name
+        comps0 = eof.data["components"].sel(mode=slice(1, k)).transpose(fn, "mode").values
+        scores0 = eof.data["scores"].sel(mode=slice(1, k)).transpose(sn, "mode").values
+        expvar0 = eof.explained_variance().sel(mode=slice(1, k)).values
+        svals0 = eof.data["norms"].sel(mode=slice(1, k)).values
+        Rm = np.asarray(rot.data["rotation_matrix"].transpose("mode_m", "mode_n").values, dtype=float)
+        RinvT = Rm if power == 1 else np.linalg.inv(Rm).conj().T
+        m = int(rng.integers(1, 5))
+        Xn = da2d(rng.normal(size=(m, p)) * np.abs(A).max(), "time", "x", s0=200)
+        X2 = rot.preprocessor.transform(Xn)
+        tf = rot._transform_algorithm(X2)
+        exp = {"comps": rot.data["components"].transpose(fn, "mode").values, "scores": rot.data["scores"].transpose(sn, "mode").values,
+               "expvar": rot.data["explained_variance"].values, "norms": rot.data["norms"].values, "sgn": rot.data["modes_sign"].values,
+               "perm": [int(v) for v in rot.data["idx_modes_sorted"].values], "transform": tf.transpose(sn, "mode").values,
+               "inverse": rot._inverse_transform_algorithm(tf).transpose(sn, fn).values, "uses_inverse": power > 1}
+        req = {"fn": "rotator", "n": n, "p": p, "k": k, "m": m, "power": power, "comps0": bits(comps0), "scores0": bits(scores0),
+               "expvar0": bits(expvar0), "svals0": bits(svals0), "R": bits(Rm), "RinvT": bits(RinvT), "X": bits(X2.transpose(sn, fn).values)}
+        reqs.append(req)
+        exps.append((req, exp, (n, p, k, m)))
+    for (req, exp, (n, p, k, m)), ans in zip(exps, ask(reqs)):
+        small = {kk: req[kk] for kk in ("n", "p", "k", "m", "power")}
+        small["seed"] = seed
+        R.cmp("perm", ans["perm"] == exp["perm"], small, ans["perm"], exp["perm"])
+        R.cmp("uses_inverse", ans["uses_inverse"] == exp["uses_inverse"], small, ans["uses_inverse"], exp["uses_inverse"])
+        for key, shp in {"comps": (p, k), "scores": (n, k), "expvar": (k,), "norms": (k,), "sgn": (k,), "transform": (m, k), "inverse": (m, p)}.items():
+            got = unbits(ans[key], shp)
+            R.cmp(key, close(got, np.asarray(exp[key], dtype=float), 1e-7), small, got.ravel()[:6].tolist(), np.asarray(exp[key]).ravel()[:6].tolist())
     return R
 
 
@@ -894,6 +1023,8 @@ def corr_formulas(seed, tier):
 
 CORR = {
     "eof_pipeline": corr_eof_pipeline,
+    "cpcca_core": corr_cpcca_core,
+    "rotator": corr_rotator,
     "scaler": corr_scaler,
     "threshold": corr_threshold,
     "validators": corr_validators,
@@ -910,15 +1041,15 @@ CORR = {
 BY_PROP = {
     "C01": ["eof_pipeline", "sign_rule"],
     "C02": ["frame"],
-    "C03": ["eof_pipeline", "scaler"],
-    "C04": ["eof_pipeline"],
+    "C03": ["eof_pipeline", "scaler", "cpcca_core"],
+    "C04": ["eof_pipeline", "cpcca_core", "rotator"],
     "C05": ["eof_pipeline"],
     "C06": ["sanitizer", "frame"],
     "C07": ["frame"],
     "C08": ["scaler", "eof_pipeline"],
-    "C09": ["formulas"],
-    "C10": ["formulas"],
-    "C11": ["formulas"],
+    "C09": ["cpcca_core", "formulas"],
+    "C10": ["cpcca_core", "formulas"],
+    "C11": ["rotator", "formulas"],
     "C12": ["lazy"],
     "C13": ["codec"],
     "C14": ["history"],
